@@ -315,7 +315,7 @@ Proof.
   rewrite intercalate_len in H |- *.
   pose proof (total_len_nonneg (x :: rest)) as Ht.
   pose proof (zlen_nonneg (sep_bytes sep)) as Hsp. pose proof (zlen_nonneg rest) as Hr.
-  assert (Hm : 0 <= zlen (sep_bytes sep) * zlen rest) by nia.
+  assert (Hm : 0 <= zlen (sep_bytes sep) * zlen rest) by (apply Z.mul_nonneg_nonneg; assumption).
   unfold join_sum_lengths_m.
   assert (Hb : total_len (arg_bytes (AStr (x :: rest))) = total_len (x :: rest)).
   { unfold arg_bytes. cbn [arg_elems]. rewrite map_map. cbn [elem_bytes]. now rewrite map_id. }
